@@ -8,9 +8,11 @@ const vMaxDur = int64(1) << 40 // ~18 minutes; larger values are outside the cla
 
 // vTM builds a TimeoutManager with the real constructor and then overwrites
 // its mutable fields with an arbitrary state satisfying the invariant
-//   adaptive => resendTimeout >= 1s, booster.originalTimeout == resendTimeout,
-//   0 <= boostCount <= 1024, 0 < boostPercent <= 1, lastBoost <= now,
-//   multiplier in {1,2,5,16}, update frequency in {1,2,100}, counter in [0,freq).
+//
+//	adaptive => resendTimeout >= 1s, booster.originalTimeout == resendTimeout,
+//	0 <= boostCount <= 1024, 0 < boostPercent <= 1, lastBoost <= now,
+//	multiplier in {1,2,5,16}, update frequency in {1,2,100}, counter in [0,freq).
+//
 // The clock is symbolic (vAdvance); every time stamp in the state was taken
 // from time.Now() at an earlier symbolic instant.
 func vTM(static bool) *TimeoutManager {
